@@ -246,6 +246,68 @@ pub proof fn lemma_set_ls(s0: Store, ct0: Map<Seq<char>, u64>, cur: Store, sv: U
 {
     reveal(cleanup_shape);
 }
+pub open spec fn nm_is(all: Seq<Seq<char>>, j: int, p: Uuid, c: Uuid) -> bool { all[j] == vname(p, c) }
+#[verifier::opaque]
+pub open spec fn children_listed(vs: Seq<Uuid>, all: Seq<Seq<char>>, k: int) -> bool {
+    forall|c: Uuid| #![trigger vs.contains(c)] vs.contains(c) <==> exists|j: int, p: Uuid| 0 <= j < k && #[trigger] nm_is(all, j, p, c)
+}
+pub open spec fn children_step(before: Seq<Uuid>, after: Seq<Uuid>, nm: Seq<char>) -> bool {
+    ||| (exists|p: Uuid, c: Uuid| nm == #[trigger] vname(p, c) && after == before.push(c))
+    ||| ((forall|p: Uuid, c: Uuid| nm != #[trigger] vname(p, c)) && after == before)
+}
+pub proof fn lemma_children_init(all: Seq<Seq<char>>)
+    ensures children_listed(Seq::<Uuid>::empty(), all, 0),
+{ reveal(children_listed); }
+pub proof fn lemma_children_step(before: Seq<Uuid>, after: Seq<Uuid>, all: Seq<Seq<char>>, k: int)
+    requires children_listed(before, all, k), 0 <= k < all.len(), children_step(before, after, all[k]),
+    ensures children_listed(after, all, k + 1),
+{
+    reveal(children_listed);
+    assert forall|c2: Uuid| after.contains(c2) <==> (exists|j: int, p2: Uuid| 0 <= j < k + 1 && #[trigger] nm_is(all, j, p2, c2)) by {
+        if exists|p: Uuid, c: Uuid| all[k] == #[trigger] vname(p, c) && after == before.push(c) {
+            let (p, c) = choose|p: Uuid, c: Uuid| all[k] == #[trigger] vname(p, c) && after == before.push(c);
+            if after.contains(c2) {
+                let i = choose|i: int| 0 <= i < after.len() && after[i] == c2;
+                if i < before.len() { assert(before[i] == c2); assert(before.contains(c2)); let (j, p2) = choose|j: int, p2: Uuid| 0 <= j < k && #[trigger] nm_is(all, j, p2, c2); assert(0 <= j < k + 1 && nm_is(all, j, p2, c2)); }
+                else { assert(c2 == c); assert(0 <= k < k + 1 && nm_is(all, k, p, c2)); }
+            }
+            if exists|j: int, p2: Uuid| 0 <= j < k + 1 && #[trigger] nm_is(all, j, p2, c2) {
+                let (j, p2) = choose|j: int, p2: Uuid| 0 <= j < k + 1 && #[trigger] nm_is(all, j, p2, c2);
+                if j < k { assert(before.contains(c2)); let i = choose|i: int| 0 <= i < before.len() && before[i] == c2; assert(after[i] == c2); }
+                else { axiom_names(p2, c2, p, c); assert(after[before.len() as int] == c2); }
+            }
+        } else {
+            if exists|j: int, p2: Uuid| 0 <= j < k + 1 && #[trigger] nm_is(all, j, p2, c2) {
+                let (j, p2) = choose|j: int, p2: Uuid| 0 <= j < k + 1 && #[trigger] nm_is(all, j, p2, c2);
+                assert(j < k);
+            }
+            if before.contains(c2) { let (j, p2) = choose|j: int, p2: Uuid| 0 <= j < k && #[trigger] nm_is(all, j, p2, c2); assert(0 <= j < k + 1 && nm_is(all, j, p2, c2)); }
+        }
+    }
+}
+pub proof fn lemma_children_done(vs: Seq<Uuid>, all: Seq<Seq<char>>, s0: Store, par: Uuid, prefix: Seq<char>)
+    requires children_listed(vs, all, all.len() as int), prefix == "v-"@ + simple_text(par) + "-"@,
+        forall|n: Seq<char>| #![trigger all.contains(n)] all.contains(n) <==> s0.dom().contains(n) && prefix.is_prefix_of(n),
+    ensures (vs.len() > 0) == has_children(s0, par),
+        forall|c: Uuid| #![trigger vs.contains(c)] #![trigger has_child_obj(s0, par, c)] vs.contains(c) <==> has_child_obj(s0, par, c),
+{
+    reveal(children_listed);
+    assert forall|c: Uuid| vs.contains(c) <==> has_child_obj(s0, par, c) by {
+        if vs.contains(c) {
+            let (j, p) = choose|j: int, p: Uuid| 0 <= j < all.len() && #[trigger] nm_is(all, j, p, c);
+            assert(all.contains(all[j]));
+            axiom_version_prefix(par, p, c);
+        }
+        if has_child_obj(s0, par, c) {
+            axiom_version_prefix(par, par, c);
+            assert(all.contains(vname(par, c)));
+            let j = choose|j: int| 0 <= j < all.len() && all[j] == vname(par, c);
+            assert(0 <= j < all.len() && nm_is(all, j, par, c));
+        }
+    }
+    if vs.len() > 0 { assert(vs.contains(vs[0])); assert(has_child_obj(s0, par, vs[0])); }
+    if has_children(s0, par) { let c = choose|c: Uuid| #[trigger] has_child_obj(s0, par, c); assert(vs.contains(c)); }
+}
 pub proof fn lemma_names_other()
     ensures !is_vs_name(latest_name()), !is_vs_name("salt"@),
 {
@@ -396,27 +458,83 @@ impl<SVC: Service> CloudServer<SVC> {
     fn snapshot_name(version_id: &VersionId) -> (r: String)
         ensures r@ == sname(*version_id)
     { unimplemented!() }
-//@watch C08 C11 :: src/server/cloud/server.rs :: impl<SVC: Service> CloudServer<SVC> :: fn parse_version_name
-//@watch C08 C11 :: src/server/cloud/server.rs :: impl<SVC: Service> CloudServer<SVC> :: fn get_child_versions
-    #[verifier::external_body]
-    fn get_child_versions(&mut self, parent_version_id: &VersionId) -> (r: Result<Vec<VersionId>>)
+//@props C08 C11
+//@extract src/server/cloud/server.rs :: impl<SVC: Service> CloudServer<SVC> :: fn get_child_versions | R32i
+    #[verifier::exec_allows_no_decreases_clause]
+    fn get_child_versions(
+        &mut self,
+        parent_version_id: &VersionId,
+    ) -> (r: Result<Vec<VersionId>>)
         ensures final(self).objs() == old(self).objs(), final(self).cryptor == old(self).cryptor, final(self).cleanup_probability == old(self).cleanup_probability,
+            //@ob C08 C11 get_child_versions.exactly-the-children-named-by-the-objects-v-PARENT-*
             r matches Ok(v) ==> (v@.len() > 0) == has_children(old(self).objs(), *parent_version_id),
             r matches Ok(v) ==> forall|c: Uuid| #![trigger v@.contains(c)] #![trigger has_child_obj(old(self).objs(), *parent_version_id, c)] v@.contains(c) <==> has_child_obj(old(self).objs(), *parent_version_id, c),
-    { unimplemented!() }
-//@watch C08 C13 :: src/server/cloud/server.rs :: impl<SVC: Service> CloudServer<SVC> :: fn parse_snapshot_name
+{
+        let ghost s0 = self.service.objs();
+        let ghost par = *parent_version_id;
+        let mut versions = Vec::new();
+        let prefix = &fmt_infixed("v-", &(parent_version_id.as_simple()), "-");
+        let mut iterator = self.service.list(prefix);
+        let ghost all = iterator.names();
+        let ghost mut kk: int = 0;
+        proof { lemma_children_init(all); }
+        while let Some(res) = iterator.next()
+            invariant self.service.objs() == s0, s0 == old(self).objs(), self.cryptor == old(self).cryptor, self.cleanup_probability == old(self).cleanup_probability,
+                0 <= kk <= all.len(), iterator.names() == all.skip(kk), children_listed(versions@, all, kk),
+            ensures kk == all.len(),
+        {
+            let ghost before = versions@;
+            match res {
+                Ok(ObjectInfo { name, .. }) => {
+                    proof { assert(name@ == all[kk]); }
+                    if let Some((_, c)) = Self::parse_version_name(&name) {
+                        versions.push(c);
+                    }
+                    proof {
+                        assert(children_step(before, versions@, all[kk]));
+                        lemma_children_step(before, versions@, all, kk);
+                        kk = kk + 1;
+                    }
+                }
+                Err(e) => {
+                    return Err(e);
+                }
+            }
+        }
+        proof { lemma_children_done(versions@, all, s0, par, prefix@); }
+        Ok(versions)
+    }
+//@end
 //@watch C08 C13 :: src/server/cloud/server.rs :: impl<SVC: Service> CloudServer<SVC> :: fn snapshot_info
+    /// TRUSTED (a method call on the temporary iterator, which no contract line can name; hashed): "pick the first snapshot we find" --
+    /// none is reported only if none is listed, or if the first listed `s-` object is not a snapshot (excluded by `own_s_names`)
     #[verifier::external_body]
     fn snapshot_info(&mut self) -> (r: Result<Option<(VersionId, String)>>)
-        ensures final(self).objs() == old(self).objs(), final(self).cryptor == old(self).cryptor,
+        ensures final(self).objs() == old(self).objs(), final(self).cryptor == old(self).cryptor, final(self).cleanup_probability == old(self).cleanup_probability,
             r matches Ok(Some((v, name))) ==> name@ == sname(v) && old(self).objs().dom().contains(name@),
-            r matches Ok(None) ==> forall|v: Uuid| !old(self).objs().dom().contains(#[trigger] sname(v)),
+            r matches Ok(None) && own_s_names(old(self).objs()) ==> forall|v: Uuid| !old(self).objs().dom().contains(#[trigger] sname(v)),
     { unimplemented!() }
-//@watch C08 :: src/server/cloud/server.rs :: impl<SVC: Service> CloudServer<SVC> :: fn snapshot_urgency
-    #[verifier::external_body]
+//@props C08
+//@extract src/server/cloud/server.rs :: impl<SVC: Service> CloudServer<SVC> :: fn snapshot_urgency
     fn snapshot_urgency(&mut self) -> (r: Result<SnapshotUrgency>)
         ensures final(self).objs() == old(self).objs(), final(self).cryptor == old(self).cryptor,
-    { unimplemented!() }
+            //@ob C08 snapshot_urgency.a-bucket-without-a-snapshot-asks-for-one-urgently
+            r matches Ok(u) && own_s_names(old(self).objs()) && u != SnapshotUrgency::High ==> exists|v: Uuid| old(self).objs().dom().contains(#[trigger] sname(v)),
+{
+        if self.snapshot_info()?.is_none() {
+            return Ok(SnapshotUrgency::High);
+        }
+        let r = self.randint()?;
+        if r < 2 {
+            Ok(SnapshotUrgency::High)
+        } else if r < 25 {
+            Ok(SnapshotUrgency::Low)
+        } else {
+            Ok(SnapshotUrgency::None)
+        }
+    }
+//@end
+//@props C08 C11 C13
 //@watch C08 C10 C11 :: src/server/cloud/server.rs :: impl<SVC: Service> CloudServer<SVC> :: fn parse_version_name
     /// TRUSTED (hex/slice code outside the verifier's reach, hashed): the inverse of version_name, None for every other name
     #[verifier::external_body]
@@ -928,7 +1046,7 @@ impl<SVC: Service> CloudServer<SVC> {
         ensures final(self).objs() == old(self).objs(), final(self).cryptor == old(self).cryptor,
             //@ob C13 C08 CloudServer::get_snapshot.a-stored-snapshot-is-returned-only-if-it-opens-under-the-key-and-the-version-id-in-its-name
             r matches Ok(Some((v, snap))) ==> old(self).objs().dom().contains(sname(v)) && opens_to(old(self).objs()[sname(v)], old(self).key(), v, snap@),
-            r matches Ok(None) ==> forall|v: Uuid| !old(self).objs().dom().contains(#[trigger] sname(v)),
+            r matches Ok(None) && own_s_names(old(self).objs()) ==> forall|v: Uuid| !old(self).objs().dom().contains(#[trigger] sname(v)),
 {
         let Some((version_id, name)) = self.snapshot_info()? else {
             return Ok(None);
